@@ -146,7 +146,7 @@ def run(ctx, rep, tier):
         try:
             rd, dev = outcome_value(B, spec, assume, "dev")
             rr, rel = outcome_value(B, spec, assume, "rel")
-        except Inconclusive as e:
+        except (Inconclusive, ValueError) as e:
             # thorough-only family beyond the engine's capacity (path explosion): listed as not decided, not claimed
             if name not in quick_names and any(k in str(e) for k in ("too many", "step budget exceeded")):
                 not_decided.append(dict(family=name, reason=str(e).splitlines()[0][-120:]))
